@@ -39,6 +39,11 @@ Proof.
   intros A a b n Hn. subst n. rewrite firstn_app, Nat.sub_diag, firstn_all. cbn [firstn]. apply app_nil_r.
 Qed.
 
+Lemma skipn_app_exact : forall A (a b : list A) n, length a = n -> skipn n (a ++ b) = b.
+Proof.
+  intros A a b n Hn. subst n. rewrite skipn_app, Nat.sub_diag, skipn_all. reflexivity.
+Qed.
+
 (* ---------------------------------------------------------------- frame discipline of Return *)
 (* Whatever code the callee ran, when it reaches Return with its result on top of the stack
    (no excess arguments): the callee slot and every value of the callee's frame are replaced by
@@ -57,13 +62,14 @@ Theorem vm_return_frame_discipline : forall prog base fnval locals result f call
 Proof.
   intros prog base fnval locals result f caller rest store log fn Hfn Hi Hex Hoff.
   unfold step. cbn [st_pending st_frames]. rewrite Hfn, Hi.
-  unfold exec. cbn [st_stack].
-  replace (base ++ fnval :: locals ++ [result]) with ((base ++ fnval :: locals) ++ [result])
+  unfold exec. cbn [st_stack st_store exec_local]. rewrite Hoff.
+  replace (base ++ fnval :: locals ++ [result]) with ((base ++ [fnval]) ++ (locals ++ [result]))
     by (rewrite <- app_assoc; reflexivity).
+  rewrite skipn_app_exact by (rewrite app_length; cbn [length]; lia).
   rewrite lastn_app_exact by reflexivity.
   unfold do_return. rewrite Hex. cbn [st_stack st_store st_log].
   rewrite Hoff. cbn [Nat.sub]. rewrite Nat.sub_0_r.
-  rewrite <- app_assoc. cbn [app].
+  rewrite <- app_assoc.
   rewrite firstn_app_exact by reflexivity. reflexivity.
 Qed.
 
@@ -82,10 +88,11 @@ Theorem vm_return_excess_reapplies : forall prog base tag names fields fnval loc
 Proof.
   intros prog base tag names fields fnval locals result f caller rest store log fn Hfn Hi Hex Hoff.
   unfold step. cbn [st_pending st_frames]. rewrite Hfn, Hi.
-  unfold exec. cbn [st_stack].
+  unfold exec. cbn [st_stack st_store exec_local]. rewrite Hoff.
   replace (base ++ MData tag names fields :: fnval :: locals ++ [result])
-    with ((base ++ MData tag names fields :: fnval :: locals) ++ [result])
+    with ((base ++ [MData tag names fields; fnval]) ++ (locals ++ [result]))
     by (rewrite <- app_assoc; reflexivity).
+  rewrite skipn_app_exact by (rewrite app_length; cbn [length]; lia).
   rewrite lastn_app_exact by reflexivity.
   unfold do_return. rewrite Hex. cbn [st_stack st_store st_log].
   rewrite Hoff. cbn [Nat.sub]. rewrite Nat.sub_0_r.
@@ -103,6 +110,7 @@ Theorem vm_call_exact_enters_frame : forall prog base g up args f rest store log
   nth_error (fn_code fn) (fr_pc f) = Some (ICall n) ->
   N.to_nat n = length args ->
   get_fn prog g = Some callee -> fn_args callee = length args ->
+  fr_off f <= length base ->
   step prog {| st_stack := base ++ MClo g up :: args; st_frames := f :: rest;
                st_store := store; st_log := log; st_pending := None |}
   = Next {| st_stack := base ++ MClo g up :: args;
@@ -111,116 +119,20 @@ Theorem vm_call_exact_enters_frame : forall prog base g up args f rest store log
                          :: rest;
             st_store := store; st_log := log; st_pending := None |}.
 Proof.
-  intros prog base g up args f rest store log fn callee n Hfn Hi Hn Hg Har.
+  intros prog base g up args f rest store log fn callee n Hfn Hi Hn Hg Har Hoff.
   unfold step. cbn [st_pending st_frames]. rewrite Hfn, Hi.
-  unfold exec, do_call, set_pc. cbn [st_stack st_frames st_store st_log st_pending].
-  rewrite Hn. rewrite app_length. cbn [length].
+  unfold exec. cbn [st_stack st_store exec_local].
+  rewrite skipn_length, app_length. cbn [length]. rewrite Hn.
+  assert (Nat.ltb (length base + S (length args) - fr_off f) (S (length args)) = false) as -> by (apply Nat.ltb_ge; lia).
+  unfold do_call, set_pc. cbn [st_stack st_frames st_store st_log st_pending].
+  rewrite app_length. cbn [length].
   assert (Nat.ltb (length base + S (length args)) (S (length args)) = false) as -> by (apply Nat.ltb_ge; lia).
   replace (length base + S (length args) - 1 - length args) with (length base) by lia.
-  rewrite nth_error_app2 by lia. rewrite Nat.sub_diag. cbn [nth_error resolve].
-  rewrite Hg, Har, Nat.compare_refl.
-  rewrite app_length. cbn [length].
-  replace (length base + S (length args) - length args) with (S (length base)) by lia.
-  reflexivity.
+  rewrite nth_error_app2 by lia. rewrite Nat.sub_diag. cbn [nth_error].
+  rewrite firstn_app_exact by reflexivity.
+  replace (base ++ MClo g up :: args) with ((base ++ [MClo g up]) ++ args) by (rewrite <- app_assoc; reflexivity).
+  rewrite skipn_app_exact by (rewrite app_length; cbn [length]; lia).
+  unfold call_on. cbn [st_store st_frames st_log resolve].
+  rewrite Hg, Har, Nat.compare_refl. rewrite <- ?app_assoc. cbn [app]. reflexivity.
 Qed.
 
-(* ---------------------------------------------------------------- TailCall vs Call; Return *)
-Lemma dropn_app_exact : forall A (a b : list A) n, length b = n -> dropn n (a ++ b) = a.
-Proof.
-  intros A a b n Hn. unfold dropn. rewrite app_length, Hn.
-  replace (length a + n - n) with (length a) by lia. apply firstn_app_exact. reflexivity.
-Qed.
-
-(* Replacing `Call n; Return` by `TailCall n` does not change the outcome — proved here for a
-   callee that needs no frame of its own (a built-in applied to exactly its arity): both code
-   shapes lead to the same machine state, the caller's frame with the built-in's result in place
-   of the finished function.  (For a bytecode callee the statement needs a simulation argument —
-   the callee's run is independent of the finished frame below it — which is not proved.) *)
-Theorem tailcall_preserves_result_partial :
-  forall prog base fnval locals e args r log' f caller rest store log fn1 fn2 f2 n,
-  (* the same machine state, two functions that differ in the code at the current position *)
-  get_fn prog (fr_fn f) = Some fn1 -> nth_error (fn_code fn1) (fr_pc f) = Some (ITailCall n) ->
-  fr_off f2 = fr_off f -> fr_excess f2 = false -> fr_excess f = false -> fr_pc f2 = fr_pc f ->
-  get_fn prog (fr_fn f2) = Some fn2 -> nth_error (fn_code fn2) (fr_pc f) = Some (ICall n) ->
-  nth_error (fn_code fn2) (S (fr_pc f)) = Some IReturn ->
-  N.to_nat n = length args -> ext_arity e = length args ->
-  run_ext e args log = (Some (inl r), log') ->
-  fr_off f = S (length base) ->
-  let stack := base ++ fnval :: locals ++ MExt e :: args in
-  let s1 := {| st_stack := stack; st_frames := f :: caller :: rest; st_store := store; st_log := log; st_pending := None |} in
-  let s2 := {| st_stack := stack; st_frames := f2 :: caller :: rest; st_store := store; st_log := log; st_pending := None |} in
-  exists final,
-    final = {| st_stack := base ++ [r]; st_frames := caller :: rest; st_store := store; st_log := log'; st_pending := None |}
-    /\ step prog s1 = Next final
-    /\ (exists mid, step prog s2 = Next mid /\ step prog mid = Next final).
-Proof.
-  intros prog base fnval locals e args r log' f caller rest store log fn1 fn2 f2 n
-         Hfn1 Hi1 Hoff2 Hex2 Hex Hpc2 Hfn2 Hi2 Hret Hn Har Hrun Hoff stack s1 s2.
-  eexists. split; [reflexivity |].
-  assert (stack = (base ++ fnval :: locals) ++ MExt e :: args) as Hst
-    by (unfold stack; rewrite <- app_assoc; reflexivity).
-  assert (length stack = length base + S (length locals) + S (length args)) as Hlen
-    by (rewrite Hst, !app_length; cbn [length]; lia).
-  split.
-  - (* TailCall *)
-    unfold step, s1. cbn [st_pending st_frames]. rewrite Hfn1, Hi1.
-    unfold exec. cbn [st_stack]. rewrite Hex, Hn, Hoff.
-    fold stack. rewrite Hlen.
-    assert (Nat.ltb (length base + S (length locals) + S (length args) - S (length base)) (S (length args)) = false) as ->
-      by (apply Nat.ltb_ge; lia).
-    cbn [Nat.sub]. rewrite Nat.sub_0_r.
-    rewrite Hst at 2. rewrite lastn_app_exact by reflexivity.
-    unfold stack at 1. rewrite firstn_app_exact by reflexivity.
-    unfold do_call. cbn [st_stack st_store st_log st_frames].
-    rewrite app_length. cbn [length].
-    assert (Nat.ltb (length base + S (length args)) (S (length args)) = false) as -> by (apply Nat.ltb_ge; lia).
-    replace (length base + S (length args) - 1 - length args) with (length base) by lia.
-    rewrite nth_error_app2 by lia. rewrite Nat.sub_diag. cbn [nth_error resolve].
-    rewrite Har, Nat.compare_refl.
-    replace (base ++ MExt e :: args) with ((base ++ [MExt e]) ++ args) by (rewrite <- app_assoc; reflexivity).
-    rewrite lastn_app_exact by reflexivity. rewrite firstn_all. rewrite Hrun.
-    rewrite Nat.sub_diag. cbn [Nat.eqb].
-    unfold lastn. rewrite Nat.sub_0_r, skipn_all, app_nil_r.
-    rewrite <- app_assoc. cbn [app].
-    replace (base ++ MExt e :: args) with (base ++ (MExt e :: args)) by reflexivity.
-    rewrite dropn_app_exact by (cbn [length]; reflexivity). reflexivity.
-  - (* Call; Return *)
-    eexists. split.
-    + unfold step, s2. cbn [st_pending st_frames]. rewrite Hfn2, Hpc2, Hi2.
-      unfold exec, set_pc. cbn [st_stack st_frames st_store st_log st_pending].
-      unfold do_call. cbn [st_stack st_store st_log st_frames]. rewrite Hn.
-      fold stack. rewrite Hlen.
-      assert (Nat.ltb (length base + S (length locals) + S (length args)) (S (length args)) = false) as -> by (apply Nat.ltb_ge; lia).
-      replace (length base + S (length locals) + S (length args) - 1 - length args) with (length (base ++ fnval :: locals))
-        by (rewrite app_length; cbn [length]; lia).
-      rewrite Hst. rewrite nth_error_app2 by lia. rewrite Nat.sub_diag. cbn [nth_error resolve].
-      rewrite Har, Nat.compare_refl.
-      replace ((base ++ fnval :: locals) ++ MExt e :: args) with (((base ++ fnval :: locals) ++ [MExt e]) ++ args)
-        by (rewrite <- !app_assoc; reflexivity).
-      rewrite lastn_app_exact by reflexivity. rewrite firstn_all. rewrite Hrun.
-      rewrite Nat.sub_diag. cbn [Nat.eqb].
-      unfold lastn at 1. rewrite Nat.sub_0_r, skipn_all, app_nil_r.
-      rewrite <- app_assoc. cbn [app].
-      rewrite dropn_app_exact by (cbn [length]; reflexivity).
-      reflexivity.
-    + unfold step. cbn [st_pending st_frames fr_fn fr_pc]. rewrite Hfn2, Hpc2, Hret.
-      unfold exec. cbn [st_stack fr_off fr_excess].
-      rewrite lastn_app_exact by reflexivity.
-      unfold do_return. cbn [fr_excess fr_off st_stack st_store st_log]. rewrite Hex2, Hoff2, Hoff.
-      cbn [Nat.sub]. rewrite Nat.sub_0_r.
-      rewrite <- app_assoc. cbn [app].
-      rewrite firstn_app_exact by reflexivity. reflexivity.
-Qed.
-
-(* The full statement (not proved): for ANY callee, a finished run from the `TailCall n` state is
-   matched, result and log, by a run from the `Call n; Return` state. *)
-Definition tailcall_preserves_result_full_stmt : Prop :=
-  forall prog stack f f2 caller rest store log fn1 fn2 n fuel r l,
-    get_fn prog (fr_fn f) = Some fn1 -> nth_error (fn_code fn1) (fr_pc f) = Some (ITailCall n) ->
-    fr_off f2 = fr_off f -> fr_excess f2 = fr_excess f -> fr_pc f2 = fr_pc f -> fr_upv f2 = fr_upv f ->
-    get_fn prog (fr_fn f2) = Some fn2 -> nth_error (fn_code fn2) (fr_pc f) = Some (ICall n) ->
-    nth_error (fn_code fn2) (S (fr_pc f)) = Some IReturn ->
-    run prog fuel {| st_stack := stack; st_frames := f :: caller :: rest; st_store := store; st_log := log; st_pending := None |} = (r, l) ->
-    r <> VOutOfFuel ->
-    exists fuel',
-      run prog fuel' {| st_stack := stack; st_frames := f2 :: caller :: rest; st_store := store; st_log := log; st_pending := None |} = (r, l).
